@@ -48,30 +48,37 @@ class Decorator(object):
 
     # ------------------------------------------------------------------ __init__ constants
     def _state_consts(self):
-        """constants pinned by __init__ before it fills __state__ (e.g. no_cache: maxsize = 0)"""
+        """constants pinned by __init__ before it fills __state__ (e.g. no_cache: maxsize = 0): the value stored under a key is the same
+        constant on every path of __init__ that sets __state__ (helper functions of the module are inlined)"""
         init = self.ci.methods.get('__init__')
         consts, exprs, params = {}, {}, []
         if init is None:
             return consts, exprs, params
         a = init.node.args
         params = [x.arg for x in a.args][1:]
-        pinned = {}
-        for st in init.node.body:   # top-level unconditional assignments only
-            if isinstance(st, ast.Assign) and len(st.targets) == 1 and isinstance(st.targets[0], ast.Name):
-                nm = st.targets[0].id
-                if isinstance(st.value, ast.Constant):
-                    pinned[nm] = st.value.value
-                else:
-                    pinned.pop(nm, None)
-            if isinstance(st, ast.Assign) and len(st.targets) == 1 and isinstance(st.targets[0], ast.Attribute) \
-                    and st.targets[0].attr == '__state__' and isinstance(st.value, ast.Dict):
-                for k, v in zip(st.value.keys, st.value.values):
-                    if isinstance(k, ast.Constant):
-                        exprs[k.value] = v
-                        if isinstance(v, ast.Name) and v.id in pinned:
-                            consts[k.value] = pinned[v.id]
-                        elif isinstance(v, ast.Constant):
-                            consts[k.value] = v.value
+        from .rules_wrappers import PlainModel
+        eng = Engine(PlainModel(init.module), unroll=1)
+        try:
+            outs = eng.run_function(init.node, {}, params={a.args[0].arg: SELF})
+        except AnalysisError:
+            outs = []
+        seen = {}
+        for o in outs:
+            if o.kind != RETURN:
+                continue
+            sets = [e for e in o.st.events if e.kind == 'SELFSET' and e.args[0] == SELF and e.args[1] == C('__state__')]
+            if not sets:
+                continue
+            stt = sets[-1].args[2]
+            if stt[0] != 'dict':
+                continue
+            for k, v in stt[1]:
+                if k is not None and is_const(k):
+                    seen.setdefault(k[1], []).append(v)
+        for k, vs in seen.items():
+            exprs[k] = vs[0]
+            if all(is_const(v) and v == vs[0] for v in vs):
+                consts[k] = vs[0][1]
         return consts, exprs, params
 
     # ------------------------------------------------------------------ __call__ roles
